@@ -62,7 +62,7 @@ def main():
                     ent = '\n[[site]]\nkey = %s\nstatus = %s\nreason = %s\n' % (tq(o.key), tq(a[3]), tq(a[4]))
                     if len(a) > 5 and a[5]:
                         ent += 'premises = [%s]\n' % ', '.join(tq(p) for p in a[5])
-                    if len(a) > 6 and a[6]:
+                    if len(a) > 6 and a[6] is not None:
                         ent += 'callers = [%s]\n' % ', '.join(tq(p) for p in a[6])
                     out.append(ent)
                     break
